@@ -266,6 +266,17 @@ for _ in range(40):
 import math as _math
 from fractions import Fraction as _Fr
 from rig import type_casts as _tc
+from rig.place_and_route import Machine as _Machine
+from rig.links import Links as _Links
+for _ in range(60):
+    w, h = rng.randint(0, 4), rng.randint(0, 4)
+    dc = set((rng.randint(0, 4), rng.randint(0, 4)) for _ in range(rng.randint(0, 3)))
+    dl = set((rng.randint(0, 4), rng.randint(0, 4), _Links(rng.randint(0, 5))) for _ in range(rng.randint(0, 4)))
+    mach = _Machine(w, h, dead_chips=dc, dead_links=dl)
+    margs = "%s %s %s %s" % (L(w), L(h), L(sorted(dc)), L(sorted((a, b, int(c)) for a, b, c in dl)))
+    x, y, l = rng.randint(-1, 5), rng.randint(-1, 5), rng.randint(0, 5)
+    add("(Machine_contains_chip %s %s).1" % (margs, L((x, y))), show((x, y) in mach))
+    add("(Machine_contains_link %s %s).1" % (margs, L((x, y, l))), show((x, y, _Links(l)) in mach))
 from rig.bitfield import BitField as _BF
 for _ in range(60):
     Lb = rng.choice([4, 8, 16, 32])
